@@ -128,6 +128,69 @@ class UTerm:
         return "%s(%s)" % (self.fn, ", ".join(repr(a) for a in self.args))
 
 
+class SymMap:
+    """a dict with symbolic contents: domain and values as z3 arrays over an uninterpreted key sort
+    (keys are artifacts compared by value: one key constant per distinct value)"""
+    KEY = None
+
+    def __init__(self, name, valsort=None):
+        import z3
+        if SymMap.KEY is None:
+            SymMap.KEY = z3.DeclareSort("Key")
+        self.name = name
+        self.valsort = valsort or z3.RealSort()
+        self.dom = z3.Array(name + ".dom", SymMap.KEY, z3.BoolSort())
+        self.val = z3.Array(name + ".val", SymMap.KEY, self.valsort)
+        self.dom0, self.val0 = self.dom, self.val
+        self.keys = {}
+        self.fresh = True
+
+    def key(self, obj):
+        import z3
+        k = id(obj)
+        if k not in self.keys:
+            self.keys[k] = z3.Const("key_%s" % getattr(obj, "label", getattr(obj, "name", len(self.keys))), SymMap.KEY)
+        return self.keys[k]
+
+
+class SymSeq:
+    """a sequence of symbolic length n whose elements are opaque (only indexed and passed on)"""
+
+    def __init__(self, name, n):
+        self.name = name
+        self.n = n
+
+    def __repr__(self):
+        return "SymSeq(%s)" % self.name
+
+
+class SymElem:
+    def __init__(self, seq, idx):
+        self.seq = seq
+        self.idx = idx
+
+    def __repr__(self):
+        return "%s[%s]" % (self.seq.name, self.idx)
+
+
+class PairSeq:
+    """ghost list of pairs of ints (the yielded values of a generator): two z3 arrays and a length"""
+
+    def __init__(self, name, n=None, a=None, b=None):
+        import z3
+        self.name = name
+        self.n = z3.Int(name + ".n") if n is None else n
+        self.a = z3.Array(name + ".a", z3.IntSort(), z3.IntSort()) if a is None else a
+        self.b = z3.Array(name + ".b", z3.IntSort(), z3.IntSort()) if b is None else b
+
+    def append(self, v):
+        import z3
+        x, y = v
+        self.a = z3.Store(self.a, self.n, x)
+        self.b = z3.Store(self.b, self.n, y)
+        self.n = self.n + 1
+
+
 class Tok:
     """an opaque value that is only passed around (identity matters, content does not)"""
 
